@@ -179,6 +179,32 @@ func extractC10Options(c *Ctx) {
 	}
 	c.Add("c10WithDefaults", "List (String × String × String)", "["+strings.Join(guarded, ", ")+"]", wsrc, "guarded assignments of withDefaults, in order")
 	c.Add("c10WithDefaultsUnguarded", "List String", LeanStrList(unguarded), wsrc, "other assignments to the receiver in withDefaults")
+
+	// what the negotiation reads of the raw request: selectors X in `….RawRequest.X` inside Bind and the two pick functions
+	reads := map[string]bool{}
+	for _, fn := range []string{"Bind", "pickRequestMarshaler", "pickResponseMarshaler"} {
+		fd := c.FuncDecl("transcoding/http.go", "StandardTranscoder", fn)
+		if fd == nil {
+			reads["?"+fn] = true
+			continue
+		}
+		ast.Inspect(fd.Body, func(n ast.Node) bool {
+			sel, ok := n.(*ast.SelectorExpr)
+			if !ok {
+				return true
+			}
+			if inner, ok := sel.X.(*ast.SelectorExpr); ok && inner.Sel.Name == "RawRequest" {
+				reads[sel.Sel.Name] = true
+			}
+			return true
+		})
+	}
+	var rl []string
+	for k := range reads {
+		rl = append(rl, k)
+	}
+	sortStrings(rl)
+	c.Add("c10NegotiationReads", "List String", LeanStrList(rl), "transcoding/http.go", "fields of RawRequest read by Bind / pickRequestMarshaler / pickResponseMarshaler")
 }
 
 func sortStrings(xs []string) {
